@@ -145,6 +145,9 @@ def property_obligations(pid: str, extra_files: List[str] = ()) -> dict:
     return res
 
 
+EDITED_RESULTS_PROPS = ("C02", "C03", "C04", "C05", "C13", "C14", "C17", "C19")
+
+
 def purge_stale_cases() -> None:
     """Run directories are kept while their run is alive (a mismatching run's files are its evidence until the
     next run starts); directories and legacy files of processes that no longer exist are removed here so that
@@ -197,6 +200,13 @@ def main(argv: List[str]) -> int:
     sys.path.insert(0, REPO)
     mod = importlib.import_module(f"harness.props.{pid}")
     if replay:
+        try:
+            rc_ = (json.load(open(replay)).get("replay_case") or {})
+        except Exception:  # noqa
+            rc_ = {}
+        if isinstance(rc_, dict) and rc_.get("scribble"):
+            from .props.hist import replay_special
+            return replay_special(rc_, pid)
         return mod.replay(replay)
 
     t0 = time.time()
@@ -229,6 +239,20 @@ def main(argv: List[str]) -> int:
                                "log": traceback.format_exc()[-2000:]}],
                "coverage": {"evaluations": 0, "distinct_nontrivial": 0}}
     violations += rep.get("violations", [])
+    # histories in which the caller edits, in place, the results it was handed (properties about what a validator
+    # returns hold of every call, also after that)
+    if pid in EDITED_RESULTS_PROPS and "coverage" in rep:
+        try:
+            from .props.hist import scribble_violation
+            sv, n_sv = scribble_violation(pid)
+            rep["coverage"]["histories_with_edited_results"] = n_sv
+            if sv:
+                violations.append(sv)
+        except Exception as e:  # noqa
+            import traceback
+            violations.append({"kind": "correspondence", "signature": None,
+                               "what": f"the edited-results histories of {pid} could not run on this tree: {type(e).__name__}: {e}",
+                               "log": traceback.format_exc()[-1500:]})
     known = load_known()
     known_here = [k for k in known.get("findings", []) if k["property"] == pid]
     real: List[dict] = []
